@@ -216,6 +216,20 @@ pub struct Stats {
     pub changed_between_calls: usize,
 }
 
+/// Model of the one interned node that all `intern_ref`s of equal values share.
+#[derive(Clone, Debug)]
+struct RefModel {
+    /// node whose cached value holds the pointee
+    owner: Node,
+    /// how many times `owner` had executed when the pointer was taken (a re-execution moves the value)
+    owner_exec: usize,
+    /// epoch (count of effective writes) in which the pointer was last (re)set
+    stamp: usize,
+    /// a GC since then may have discarded the interned node (no guaranteed-retained node depended on it): a
+    /// later intern_ref in the same epoch may or may not have re-created it, so the pointee is not predictable
+    uncertain: bool,
+}
+
 pub struct Exec {
     pub db: MonDb,
     pub model: Model,
@@ -234,6 +248,9 @@ pub struct Exec {
     absent_read: BTreeSet<Src>,
     /// text -> nodes that interned it by reference (intern_ref identity is the value)
     ref_owners: HashMap<String, BTreeSet<Node>>,
+    /// text -> which owner's value the single interned node points to, following pico's documented re-pointing
+    /// rule (first intern_ref of the value in an epoch re-points; later ones in the same epoch do not).
+    ref_model: HashMap<String, RefModel>,
     /// nodes whose cached result was computed from a dangling / re-used reference
     tainted: BTreeSet<Node>,
     pub violations: Vec<Violation>,
@@ -263,6 +280,7 @@ impl Exec {
             inner_handles: BTreeMap::new(),
             absent_read: BTreeSet::new(),
             ref_owners: HashMap::new(),
+            ref_model: HashMap::new(),
             tainted: BTreeSet::new(),
             violations: Vec::new(),
             stats: Stats::default(),
@@ -300,7 +318,16 @@ impl Exec {
     /// A reference handed out by pico points to a dropped (or re-used) value.
     fn violate_reference(&mut self, rule: &'static str, func: &str, text: &str, detail: String) {
         let n = self.ref_owners.get(text.trim_matches('"')).map(|s| s.len()).unwrap_or(0);
-        let class = if n >= 2 {
+        // Where does pico's documented re-pointing rule say the shared node points? If that owner's value is
+        // certainly still alive (owner not re-executed since, guaranteed retained at every GC since), the dangling /
+        // wrong read is NOT the known shared-identity defect (whose pointee is a collected or superseded owner).
+        let predicted_alive = self.ref_model.get(text.trim_matches('"')).and_then(|m| {
+            let st = self.nodes.get(&m.owner)?;
+            Some(!m.uncertain && st.executions == m.owner_exec && st.alive_guaranteed)
+        }).unwrap_or(false);
+        let class = if predicted_alive {
+            "intern_ref-pointee-not-the-one-the-repointing-rule-selects".to_string()
+        } else if n >= 2 {
             "intern_ref-identity-shared-by-several-owners".to_string()
         } else {
             format!("intern_ref-owners={n}")
@@ -549,6 +576,17 @@ impl Exec {
                     let is_pseudo = matches!(child, Node::InternedValue(_) | Node::InternedRef(_));
                     if let (Node::InternedRef(text), Some(top)) = (child, stack.last()) {
                         self.ref_owners.entry(text.clone()).or_default().insert(top.0.clone());
+                        if let Node::SecondRef(k) = &top.0 {
+                            let owner = Node::Pair(*k);
+                            let owner_exec = self.nodes.get(&owner).map(|st| st.executions).unwrap_or(0);
+                            let epoch = self.writes;
+                            match self.ref_model.get_mut(text) {
+                                Some(m) if m.stamp == epoch => {} // same epoch: pico keeps the pointer it has
+                                _ => {
+                                    self.ref_model.insert(text.clone(), RefModel { owner, owner_exec, stamp: epoch, uncertain: false });
+                                }
+                            }
+                        }
                     }
                     if self.tainted.contains(child) || tainted_now.contains(child) {
                         for fr in &stack {
@@ -708,6 +746,11 @@ impl Exec {
         self.db.run_garbage_collection();
         self.clock += 1;
         let g = self.guaranteed_set();
+        for (text, m) in self.ref_model.iter_mut() {
+            if !g.contains(&Node::InternedRef(text.clone())) {
+                m.uncertain = true;
+            }
+        }
         for (n, st) in self.nodes.iter_mut() {
             st.gc_since_exec = true;
             if !g.contains(n) {
